@@ -189,6 +189,9 @@ def check(ctx):
     # ---- R3 effective piece --------------------------------------------------------------------------------------
     gc = p.fn(POS + '::move_gives_check')
     sw = [n for n in gc.all_nodes() if n['k'] == 'SwitchStmt']
+    if len(sw) != 1:
+        raise AnalysisBroken('C15: move_gives_check does not decide the direct check by one switch over the piece kind (%d switches): '
+                             'the rules about the effective piece and the per-kind attack patterns read that form only' % len(sw))
     ok3 = False
     if len(sw) == 1:
         op = strip_casts(kids(sw[0])[0])
@@ -239,10 +242,16 @@ def check(ctx):
     s_all = [canon(gc, n, inline=False).replace(' ', '') for n in gc.all_nodes()
              if n['k'] in ('BinaryOperator', 'CompoundAssignOperator') and n.get('op', '').endswith('=') and
              canon(gc, kids(n)[0], inline=False) == 'blockers' and n['op'] not in ('==', '!=')]
+    if not blk:
+        raise AnalysisBroken('C15: move_gives_check keeps no occupancy local the rules know (`blockers`): how the from/to squares and the '
+                             'e.p. victim enter the discovered-check occupancy is read from its updates only')
     init = [canon(gc, kids(n)[0], inline=False).replace(' ', '') for n in blk if kids(n)]
     removed_from = any('^from_bb' in x for x in init + s_all)
     added_to = any(x in ('(blockers|=to_bb)',) or x.endswith('|to_bb)') for x in s_all)
     victim = [n for n in gc.all_nodes() if n['k'] == 'VarDecl' and n.get('name') == 'captured_bb']
+    if not victim and any(canon(gc, n).replace(' ', '').startswith('make_square(rank(from(move)),file(to(move)))') for n in gc.all_nodes()
+                          if n['k'] == 'CallExpr'):
+        raise AnalysisBroken('C15: move_gives_check computes the e.p. victim square but not as the local the rule reads (`captured_bb`)')
     ok_v = len(victim) == 1 and canon(gc, kids(victim[0])[0]).replace(' ', '') == \
         'square_bb(make_square(rank(from(move)),file(to(move))))' and any('^captured_bb' in x for x in s_all)
     gv = False
